@@ -31,8 +31,22 @@ fn nondet_seed() -> u8 {
     }
 }
 
-#[derive(Clone, Debug)]
+#[derive(Debug)]
 pub struct HashSet<T> { items: Vec<T>, seed: u8 }
+// a clone keeps spare capacity: `make_mut` + `insert` would otherwise go through `realloc`, whose
+// byte-wise copy makes CBMC lose the tags of the copied elements
+fn clone_with_room<T: Clone>(v: &Vec<T>) -> Vec<T> {
+    let mut out = Vec::with_capacity(v.len() + 4);
+    let mut i = 0;
+    while i < v.len() {
+        out.push(v[i].clone());
+        i += 1;
+    }
+    out
+}
+impl<T: Clone> Clone for HashSet<T> {
+    fn clone(&self) -> Self { Self { items: clone_with_room(&self.items), seed: self.seed } }
+}
 
 fn perm_index(seed: u8, n: usize, i: usize) -> usize {
     // rotation by (seed>>1)%n, optionally reversed: all orders for n<=3
@@ -84,8 +98,11 @@ impl<'a, T: PartialEq> IntoIterator for &'a HashSet<T> {
     fn into_iter(self) -> Iter<'a, T> { self.iter() }
 }
 
-#[derive(Clone, Debug)]
+#[derive(Debug)]
 pub struct HashMap<K, V> { items: Vec<(K, V)>, seed: u8 }
+impl<K: Clone, V: Clone> Clone for HashMap<K, V> {
+    fn clone(&self) -> Self { Self { items: clone_with_room(&self.items), seed: self.seed } }
+}
 pub struct MapIter<'a, K, V> { items: &'a [(K, V)], seed: u8, pos: usize }
 impl<'a, K, V> Iterator for MapIter<'a, K, V> {
     type Item = (&'a K, &'a V);
